@@ -170,39 +170,12 @@ def cmdBread (sorted : Bool) (fmt dateFmt file : Bytes) : String :=
   let (text, err) := Bread.run sorted fmt dateFmt file
   s!"text={hex text} err={match err with | some e => e.code | none => "-"}"
 
-/-- one `TextOutputStream::write(chunk)`: a `RangeEntryStream` over the chunk, the stream object's reader state carried
-    over; every event is printed to the output as soon as it is read; the first exception (an invalid entry, a printer
-    error, the incomplete entry at the end of the chunk) leaves `write` with what was printed so far on the output -/
-def textOutEntries (fmt dateFmt : Bytes) : ReaderState → List Bytes → Bytes → ReaderState × Bytes × Option Err × Bool
-  | st, [], acc => (st, acc, none, false)
-  | st, p :: ps, acc =>
-    match stepEntry st p with
-    | none => (st, acc, none, true)
-    | some (items, st') =>
-      match items with
-      | [] => textOutEntries fmt dateFmt st' ps acc
-      | .error e :: _ => (st', acc, some e, false)
-      | .event ev wp cs :: _ =>
-        match Bread.renderEvent fmt dateFmt ev wp cs with
-        | .error e => (st', acc, some e, false)
-        | .ok t => textOutEntries fmt dateFmt st' ps (acc ++ t)
-
 /-- `textout <fmt hex> <dateFmt hex> <chunk hex>,<chunk hex>,…`: ONE TextOutputStream, `write` once per chunk -/
 def cmdTextOut (fmt dateFmt : Bytes) (chunks : List Bytes) : String :=
   let step (acc : ReaderState × Bytes × List String) (chunk : Bytes) : ReaderState × Bytes × List String :=
     let (st, text, errs) := acc
-    let (ps, _, tail) := splitEntries chunk
-    let (st', text', err, stopped) := textOutEntries fmt dateFmt st ps text
-    let e : String := match err with
-      | some e => e.code
-      | none =>
-        if stopped then "-" else
-        match tail with
-        | .clean => "-"
-        -- RangeEntryStream: an incomplete size field or payload is a `Range overflow`
-        | .truncSize => Err.overflow.code
-        | .truncPayload => Err.overflow.code
-    (st', text', errs ++ [e])
+    let r := Bread.textOutWrite fmt dateFmt st text chunk
+    (r.1, r.2.1, errs ++ [match r.2.2 with | some e => e.code | none => "-"])
   let (_, text, errs) := chunks.foldl step ({}, [], [])
   s!"text={hex text} errs={",".intercalate errs}"
 
